@@ -38,6 +38,8 @@ var validRequests = []string{
 	`subscription S{watch(id: "a"){str}}`,
 	`{__schema{types{name fields{name args{name defaultValue}}}} __type(name: "In"){inputFields{name defaultValue}}}`,
 	`query A{str} query B{num}`,
+	// a wrapper with nothing inside it, wherever a type or a name is read
+	`query($v: !){str}`, `query($v: [!]){str}`, `query($v: [!]!){str}`, `{... on ! {str}}`, `{...F} fragment F on ! {str}`, `{str @!}`, `{str @[]}`, `{... on [] {str}}`, `query($v: []){str}`,
 	`{stray{items sub{items} __typename ...on LA{items}} strays{items(first: 1) __typename sub{__typename}}}`, `{obj{stray{items}} strays{...F}} fragment F on Lister{items sub{items}}`,
 	`{col(c: RED) big(x: 1, y: 1.5, t: "2020-01-02T03:04:05Z", id: 7) fail(s: "fail") when}`,
 }
@@ -50,6 +52,8 @@ var sdlAdversarial = []string{
 	// nothing but extensions, naming types every root has, as the first thing a root is given
 	`extend schema { query: String }`, `extend schema { query: Int mutation: Boolean subscription: Time }`, `extend schema @deprecated { query: ID }`,
 	`extend schema { query: String }` + "\n##next-load##\n" + `type Query { a: Int }`, `extend scalar Time @deprecated extend schema { mutation: Float }`,
+	`union U = ! type Query { a: Int }`, `type Query implements ! { a: Int }`, `type Query @! { a: Int }`, `type Query { a: ! }`, `type Query { a(x: !): Int }`, `input I { a: ! } type Query { a: Int }`,
+	`union U = [] type Query { a: Int }`, `type Query implements [!] { a: Int }`, `directive @d(p: !) on FIELD type Query { a: Int }`, `schema { query: ! }`, `extend type ! { a: Int }`,
 	`extend schema @deprecated`, `extend schema`, `extend`, `extend type`, `extend type Nope { a: Int }`, `extend Query { a: Int }`,
 	`type Query { a: Int } extend type Query`, `type Query { a: Int } extend type Query { a: Int }`, `type Query { a: Int } extend enum Query { A }`,
 	`type Query { a: Int } extend interface Query { b: Int }`, `type Query { a: Int } extend union Query = Query`, `type Query { a: Int } extend input Query { b: Int }`,
